@@ -59,49 +59,81 @@ theorem asSlice_of_R {q : Q} {s : Spec} (h : R q s) :
     simp only [hc] at ho
     exact ⟨c.drop q.offset, by simp [Q.asSlice?, hc, ho], by simp [abs, hc], by simp⟩
 
+/-- the state after a `write` that does not overflow -/
+def writeN (q : Q) (b : List UInt8) : Q :=
+  { q with chunks := appendLast q.chunks b, length := q.length + b.length }
+
+theorem write?_eq (q : Q) (b : List UInt8) (h : q.length + b.length ≤ usizeMax) :
+    q.write? b = some (writeN q b) := by
+  simp [Q.write?, add?, h, writeN]
+
+/-- the front chunk is no longer than everything the stream has seen -/
+theorem front_le {q : Q} {s : Spec} (h : R q s) :
+    match q.chunks with
+    | [] => True
+    | c :: _ => c.length ≤ s.size := by
+  have ho := h.off
+  have ha := h.abs_eq
+  have hs := h.off_sent
+  cases hc : q.chunks with
+  | nil => trivial
+  | cons c cs =>
+    simp only [hc] at ho
+    have : (abs q).length = (c.length - q.offset) + cs.flatten.length := by simp [abs, hc]
+    rw [ha] at this
+    simp only [Spec.size]
+    omega
+
 /-- write: appends to the readable bytes -/
 theorem write_abs (q : Q) (b : List UInt8)
     (ho : match q.chunks with | [] => q.offset = 0 | c :: _ => q.offset ≤ c.length) :
-    abs (q.write b) = abs q ++ b := by
+    abs (writeN q b) = abs q ++ b := by
   cases hc : q.chunks with
   | nil =>
     simp only [hc] at ho
-    simp [Q.write, abs, hc, appendLast, ho]
+    simp [writeN, abs, hc, appendLast, ho]
   | cons c cs =>
     simp only [hc] at ho
     cases cs with
-    | nil => simp [Q.write, abs, hc, appendLast, List.drop_append_of_le_length ho]
-    | cons d ds => simp [Q.write, abs, hc, appendLast, appendLast_flatten]
+    | nil => simp [writeN, abs, hc, appendLast, List.drop_append_of_le_length ho]
+    | cons d ds => simp [writeN, abs, hc, appendLast, appendLast_flatten]
 
-theorem write_R {q : Q} {s : Spec} (b : List UInt8) (h : R q s) : R (q.write b) (s.apply (.write b)) := by
+theorem writeN_R {q : Q} {s : Spec} (b : List UInt8) (h : R q s) : R (writeN q b) (s.apply (.write b)) := by
   have ho := h.off
-  refine ⟨?_, ?_, ?_, ?_⟩
+  refine ⟨?_, ?_, ?_, ?_, ?_⟩
   · rw [write_abs q b ho, h.abs_eq]; rfl
-  · simp [Q.write, Spec.apply, h.len_eq]
+  · simp [writeN, Spec.apply, h.len_eq]
   · cases hc : q.chunks with
-    | nil => simp only [hc] at ho; simp [Q.write, hc, appendLast, ho]
+    | nil => simp only [hc] at ho; simp [writeN, hc, appendLast, ho]
     | cons c cs =>
       simp only [hc] at ho
       cases cs with
-      | nil => simp [Q.write, hc, appendLast]; omega
-      | cons d ds => simpa [Q.write, hc, appendLast] using ho
+      | nil => simp [writeN, hc, appendLast]; omega
+      | cons d ds => simpa [writeN, hc, appendLast] using ho
   · intro m hm
-    have : boundaries (q.write b) = boundaries q := by
+    have : boundaries (writeN q b) = boundaries q := by
       cases hc : q.chunks with
-      | nil => simp [Q.write, boundaries, hc, appendLast, boundsFrom]
+      | nil => simp [writeN, boundaries, hc, appendLast, boundsFrom]
       | cons c cs =>
         cases cs with
-        | nil => simp [Q.write, boundaries, hc, appendLast, boundsFrom]
-        | cons d ds => simp [Q.write, boundaries, hc, appendLast, boundsFrom_appendLast]
+        | nil => simp [writeN, boundaries, hc, appendLast, boundsFrom]
+        | cons d ds => simp [writeN, boundaries, hc, appendLast, boundsFrom_appendLast]
     rw [this] at hm
     exact h.marks m hm
+  · exact h.off_sent
+
+/-- write does not panic as long as the byte counter fits `usize` -/
+theorem write_R {q : Q} {s : Spec} (b : List UInt8) (h : R q s) (hb : s.size + b.length ≤ usizeMax) :
+    q.write? b = some (writeN q b) ∧ R (writeN q b) (s.apply (.write b)) := by
+  refine ⟨write?_eq q b ?_, writeN_R b h⟩
+  rw [h.len_eq]; simp only [Spec.size] at hb; omega
 
 theorem flush_R {q : Q} {s : Spec} (h : R q s) :
     ∃ q', q.flush? = some q' ∧ R q' (s.apply .flush) ∧ abs q' = abs q := by
   obtain ⟨sl, hsl, _, hfront⟩ := asSlice_of_R h
   have ho := h.off
   by_cases he : sl.isEmpty
-  · refine ⟨q, by simp [Q.flush?, hsl, he], ⟨h.abs_eq, h.len_eq, h.off, ?_⟩, rfl⟩
+  · refine ⟨q, by simp [Q.flush?, hsl, he], ⟨h.abs_eq, h.len_eq, h.off, ?_, h.off_sent⟩, rfl⟩
     intro m hm
     simp [Spec.apply, h.marks m hm]
   · cases hc : q.chunks with
@@ -109,7 +141,7 @@ theorem flush_R {q : Q} {s : Spec} (h : R q s) :
     | cons c cs =>
       simp only [hc] at ho hfront
       have habs : abs { q with chunks := q.chunks ++ [[]] } = abs q := by simp [abs, hc]
-      refine ⟨{ q with chunks := q.chunks ++ [[]] }, by simp [Q.flush?, hsl, he], ⟨?_, h.len_eq, ?_, ?_⟩, habs⟩
+      refine ⟨{ q with chunks := q.chunks ++ [[]] }, by simp [Q.flush?, hsl, he], ⟨?_, h.len_eq, ?_, ?_, h.off_sent⟩, habs⟩
       · rw [habs]; exact h.abs_eq
       · simpa [hc] using ho
       · intro m hm
@@ -123,7 +155,7 @@ theorem flush_R {q : Q} {s : Spec} (h : R q s) :
           simp [abs, hc]
 
 /-- consume: removes `min n |front slice|` bytes at the front -/
-theorem consume_R {q : Q} {s : Spec} (n : Nat) (h : R q s) :
+theorem consume_R {q : Q} {s : Spec} (n : Nat) (h : R q s) (hsz : s.size ≤ usizeMax) :
     ∃ q' sl, q.asSlice? = some sl ∧ q.consume? n = some q' ∧ s.Legal (.take (sl.take n)) ∧
       R q' (s.apply (.take (sl.take n))) ∧ abs q = sl.take n ++ abs q' ∧
       q'.chunks.length = (if n < sl.length then q.chunks.length else q.chunks.length - 1) := by
@@ -134,11 +166,12 @@ theorem consume_R {q : Q} {s : Spec} (n : Nat) (h : R q s) :
   | nil =>
     simp only [hc] at ho
     have ha' : s.buf = [] := by rw [← ha]; simp [abs, hc]
-    refine ⟨{ q with offset := 0 }, [], by simp [Q.asSlice?, hc], by simp [Q.consume?, hc], by simp [Spec.Legal], ⟨?_, ?_, ?_, ?_⟩, ?_⟩
+    refine ⟨{ q with offset := 0 }, [], by simp [Q.asSlice?, hc], by simp [Q.consume?, hc], by simp [Spec.Legal], ⟨?_, ?_, ?_, ?_, ?_⟩, ?_⟩
     · simp [abs, hc, Spec.apply, ha']
     · simp [Spec.apply, hl, ha']
     · simp [hc]
     · simp [boundaries, hc]
+    · simp
     · exact ⟨by simp [abs, hc], by simp [hc]⟩
   | cons c cs =>
     simp only [hc] at ho
@@ -146,11 +179,19 @@ theorem consume_R {q : Q} {s : Spec} (n : Nat) (h : R q s) :
     have hsl : q.asSlice? = some (c.drop q.offset) := by simp [Q.asSlice?, hc, ho]
     have hlen : q.length = (c.length - q.offset) + cs.flatten.length := by
       rw [hl, ← ha, habs0]; simp
+    have hfront : c.length ≤ usizeMax := by
+      have := front_le h
+      simp only [hc] at this
+      omega
+    have hsat : (c.length > satAdd q.offset n) ↔ (c.length > q.offset + n) := by
+      simp only [satAdd]; omega
+    have hos := h.off_sent
     by_cases hlt : c.length > q.offset + n
     · have htl : ((c.drop q.offset).take n).length = n := by simp; omega
       have hsub : sub? q.length n = some (q.length - n) := by simp [sub?]; omega
+      have hadd : add? q.offset n = some (q.offset + n) := by simp [add?]; omega
       refine ⟨{ q with offset := q.offset + n, length := q.length - n }, c.drop q.offset, hsl,
-        by simp [Q.consume?, hc, hlt, hsub], ?_, ⟨?_, ?_, ?_, ?_⟩, ?_⟩
+        by simp [Q.consume?, hc, hsat, hlt, hsub, hadd], ?_, ⟨?_, ?_, ?_, ?_, ?_⟩, ?_⟩
       · simp only [Spec.Legal, ← ha, habs0]
         exact (List.take_prefix _ _).trans (List.prefix_append _ _)
       · simp only [Spec.apply, htl, ← ha, abs, hc]
@@ -165,6 +206,7 @@ theorem consume_R {q : Q} {s : Spec} (n : Nat) (h : R q s) :
         have hge := boundsFrom_ge _ _ m0 hm0
         simp only [Spec.apply, htl]
         exact mem_shift_marks (h.marks m0 (by simpa [boundaries, hc] using hm0)) (by omega)
+      · simp only [Spec.apply, htl, List.length_append]; omega
       · refine ⟨?_, ?_⟩
         · simp only [abs, hc]
           rw [← List.append_assoc]
@@ -181,7 +223,7 @@ theorem consume_R {q : Q} {s : Spec} (n : Nat) (h : R q s) :
       have habs' : abs ⟨cs, 0, q.length - (c.length - q.offset)⟩ = cs.flatten := by
         cases cs <;> simp [abs]
       refine ⟨⟨cs, 0, q.length - (c.length - q.offset)⟩, c.drop q.offset, hsl,
-        by simp [Q.consume?, hc, hlt, hs1, hs2], ?_, ⟨?_, ?_, ?_, ?_⟩, ?_⟩
+        by simp [Q.consume?, hc, hsat, hlt, hs1, hs2], ?_, ⟨?_, ?_, ?_, ?_, ?_⟩, ?_⟩
       · simp only [Spec.Legal, htk, ← ha, habs0]
         exact List.prefix_append _ _
       · rw [habs']
@@ -200,6 +242,7 @@ theorem consume_R {q : Q} {s : Spec} (n : Nat) (h : R q s) :
           have hge := boundsFrom_ge _ _ m0 hm0
           simp only [Spec.apply, htk, List.length_drop]
           exact mem_shift_marks (h.marks m0 (by simp [boundaries, hc, boundsFrom, hm0])) (by omega)
+      · simp
       · refine ⟨by rw [habs', htk, habs0], ?_⟩
         have : ¬ n < c.length - q.offset := by omega
         simp [this, hc]
@@ -215,7 +258,7 @@ theorem clear_R {q : Q} {s : Spec} (h : R q s) :
       ∃ q', q.clearButLast? = some q' ∧ s.Legal (.drop q'.length) ∧ R q' (s.apply (.drop q'.length)) ∧
         q'.chunks = q.chunks.take 1 ∧ q'.offset = q.offset ∧ q.asSlice? = some (abs q') := by
     intro hb hq ht hs
-    refine ⟨q, hq, ⟨Or.inr hl, by omega⟩, ⟨?_, ?_, ho, ?_⟩, ht, rfl, hs⟩
+    refine ⟨q, hq, ⟨Or.inr hl, by omega⟩, ⟨?_, ?_, ho, ?_, h.off_sent⟩, ht, rfl, hs⟩
     · simp [Spec.apply, hl, ha]
     · simp [Spec.apply, hl]
     · intro m hm; simp [hb] at hm
@@ -243,7 +286,7 @@ theorem clear_R {q : Q} {s : Spec} (h : R q s) :
       have hbuf : s.buf.take (c.length - q.offset) = c.drop q.offset := by
         rw [← ha, habs0]; apply List.take_left'; simp
       refine ⟨{ q with chunks := [c], length := c.length - q.offset }, by simp only [Q.clearButLast?, hc, hsub],
-        ⟨Or.inl ?_, ?_⟩, ⟨?_, ?_, ?_, ?_⟩, by simp [hc], rfl, by simp [Q.asSlice?, abs, hc, ho]⟩
+        ⟨Or.inl ?_, ?_⟩, ⟨?_, ?_, ?_, ?_, h.off_sent⟩, by simp [hc], rfl, by simp [Q.asSlice?, abs, hc, ho]⟩
       · exact h.marks _ (by simp [boundaries, hc, boundsFrom])
       · show c.length - q.offset ≤ s.buf.length
         rw [← hl]; omega
@@ -253,7 +296,8 @@ theorem clear_R {q : Q} {s : Spec} (h : R q s) :
       · intro m hm; simp [boundaries, boundsFrom] at hm
 
 theorem take_nil_R {q : Q} {s : Spec} (h : R q s) : R q (s.apply (.take [])) := by
-  refine ⟨by simpa [Spec.apply] using h.abs_eq, by simpa [Spec.apply] using h.len_eq, h.off, ?_⟩
+  refine ⟨by simpa [Spec.apply] using h.abs_eq, by simpa [Spec.apply] using h.len_eq, h.off, ?_,
+    by simpa [Spec.apply] using h.off_sent⟩
   intro m hm
   have := mem_shift_marks (n := 0) (h.marks m hm) (Nat.zero_le _)
   simpa [Spec.apply] using this
